@@ -48,6 +48,7 @@ class Structure:
         s.bars = [dict(b) for b in self.bars]
         s.loads = [dict(l) for l in self.loads]
         s.version = self.version
+        s.node_dof_notes = dict(getattr(self, "node_dof_notes", {}))
         return s
 
     def bar(self, bid):
@@ -67,8 +68,13 @@ class Structure:
                 out.append("# section " + sec)
             out.append("|%s|" % sec)
             if sec == "nodes":
+                notes = getattr(self, "node_dof_notes", {})
                 for i, (x, y, c) in self.nodes.items():
-                    out.append("%s%s -> %s %s %s" % (pad, i, num(x), num(y), cstr(c, spaced)))
+                    line = "%s%s -> %s %s %s" % (pad, i, num(x), num(y), cstr(c, spaced))
+                    if i in notes:
+                        # the grammar lets a node line carry equation numbers (as .inkfempre files do)
+                        line += " | [%d %d %d]" % notes[i]
+                    out.append(line)
             elif sec == "materials":
                 for n, v in self.mats.items():
                     out.append("%s'%s' -> %s" % (pad, n, " ".join(num(a) for a in v)))
